@@ -604,6 +604,29 @@ func (w *hclW) listExpr(xs []string) string {
 	if !w.use || len(xs) == 0 || w.rng.Intn(2) == 0 {
 		return hclListLit(xs)
 	}
+	noEmpty, distinct := true, true
+	seen := map[string]bool{}
+	for _, x := range xs {
+		noEmpty = noEmpty && x != ""
+		distinct = distinct && !seen[x]
+		seen[x] = true
+	}
+	switch k := w.rng.Intn(10); {
+	case k == 5:
+		// the first list that is not empty
+		return fmt.Sprintf("coalescelist([], %s, [\"never used\"])", hclListLit(xs))
+	case k == 6:
+		return fmt.Sprintf("coalescelist(%s, %s)", w.newLocal("[]"), w.newLocal(hclListLit(xs)))
+	case k == 7 && noEmpty:
+		// empty strings dropped
+		withEmpty := append(append([]string{""}, xs...), "")
+		return fmt.Sprintf("compact(%s)", hclListLit(withEmpty))
+	case k == 8 && distinct:
+		return fmt.Sprintf("distinct(concat(%s, %s))", hclListLit(xs), w.newLocal(hclListLit(xs)))
+	case k >= 7:
+		padded := append(append([]string{"front"}, xs...), "back", "back")
+		return fmt.Sprintf("slice(%s, 1, %d)", w.newLocal(hclListLit(padded)), 1+len(xs))
+	}
 	switch w.rng.Intn(5) {
 	case 3:
 		k := w.rng.Intn(len(xs) + 1)
@@ -629,7 +652,15 @@ func (w *hclW) strExpr(s string) string {
 	if !w.use || w.rng.Intn(3) > 0 {
 		return hq(s)
 	}
-	switch w.rng.Intn(3) {
+	switch w.rng.Intn(5) {
+	case 3:
+		return fmt.Sprintf("coalesce(%s, \"never used\")", w.newLocal(hq(s)))
+	case 4:
+		if w.rng.Intn(2) == 0 {
+			// index(collection, key): the element under that key
+			return fmt.Sprintf("index(%s, 1)", w.newLocal("[\"zero\", "+hq(s)+", \"two\"]"))
+		}
+		return fmt.Sprintf("values(%s)[0]", w.newLocal("{only = "+hq(s)+"}"))
 	case 0:
 		return w.newLocal(hq(s))
 	case 1:
